@@ -52,6 +52,8 @@ StringDictionaryPFC::StringDictionaryPFC(IteratorDictString *it,
     this->bucketsize = 2;
   } else
     this->bucketsize = bucketsize;
+  // From here on the (possibly corrected) bucket size is the one in use
+  bucketsize = this->bucketsize;
 
   this->buckets = 0;
   this->bytesStrings = 0;
